@@ -34,8 +34,10 @@ type optSpec struct {
 	OpenFiles    int  `json:"open_files"`
 	Sampling     int  `json:"sampling"` // IteratorSamplingRate; 0 = seek compaction disabled
 	NoLargeTxn   bool `json:"no_large_batch_txn"`
-	NoTableComp  bool `json:"no_table_compaction"` // level-0-only layout (see d5 note in main.go)
-	// never generated; set by hand in findings/*.json to reproduce the stale-block-cache defect
+	NoTableComp  bool `json:"no_table_compaction"` // level-0-only layout (a layout option like the others)
+	// BlockCacheEvictRemoved=false: blocks of removed tables stay in the block cache (generated since
+	// the file-number reuse defect 9e241f6 is repaired; findings/C02_stale_block_cache_after_discard.json
+	// is the old trigger)
 	KeepRemovedBlocks bool `json:"keep_removed_blocks,omitempty"`
 }
 
@@ -82,9 +84,8 @@ func (o optSpec) build(cmp comparer.Comparer) *opt.Options {
 		DisableLargeBatchTransaction: o.NoLargeTxn,
 		NoSync:                       true,
 		Strict:                       opt.StrictAll,
-		// Without it, a table file number reused after Transaction.Discard (tOps.remove ->
-		// reuseFileNum) is served from the blocks the block cache still holds for the removed
-		// table: a defect of the write path / cache (not of the iterators), reported as a finding.
+		// false: the blocks of a removed table stay cached; its file number must then not be reused
+		// (tOps.remove, fixed 9e241f6) - both settings are generated
 		BlockCacheEvictRemoved: !o.KeepRemovedBlocks,
 	}
 	if o.Snappy {
@@ -128,6 +129,8 @@ func genOpts(r *vlib.RNG, small bool) optSpec {
 		OpenFiles:    []int{0, 2, 16}[r.Pick(1, 2, 1)], // 0 = default
 		NoLargeTxn:   r.Chance(1, 4),
 	}
+	o.KeepRemovedBlocks = r.Chance(1, 3)
+	o.NoTableComp = r.Chance(1, 8)
 	if small {
 		o.WriteBuffer = []int{128, 256, 512}[r.Intn(3)]
 		o.TableSize = []int{128, 256}[r.Intn(2)]
@@ -188,9 +191,9 @@ func (g *progGen) iterNew(view string, id int) {
 	}
 	if g.r.Chance(2, 3) {
 		o.Start, o.Limit = g.bound(), g.bound()
-		// an inverted range (Start > Limit) makes tFiles.newIndexIterator panic (tf[start:limit]) on
-		// the unchanged tree; it is reported as a finding, not generated
-		if o.Start != nil && o.Limit != nil && g.cmp.Compare(*o.Start, *o.Limit) > 0 {
+		// inverted ranges (Start > Limit) are generated: the view is empty (Props/C02.v
+		// C02_inverted_range_empty); two thirds of them are turned round to keep most ranges inhabited
+		if o.Start != nil && o.Limit != nil && g.cmp.Compare(*o.Start, *o.Limit) > 0 && g.r.Chance(2, 3) {
 			o.Start, o.Limit = o.Limit, o.Start
 		}
 	}
@@ -245,11 +248,10 @@ func (g *progGen) batch() []bop {
 	return b
 }
 
-func genDBCase(r *vlib.RNG, small bool, maxMove int, allowTableComp func(cid int) bool) *dbCase {
+func genDBCase(r *vlib.RNG, small bool, maxMove int) *dbCase {
 	cid := r.Intn(vlib.NumComparers)
 	c := &dbCase{Kind: "db", Cid: cid, Opts: genOpts(r, small), Settled: !r.Chance(1, 5)}
-	if !allowTableComp(cid) {
-		c.Opts.NoTableComp = true
+	if c.Opts.NoTableComp {
 		c.Opts.Sampling = 0
 	}
 	cmp := vlib.ComparerByID(cid)
@@ -548,11 +550,11 @@ func (x *dbExec) settle() {
 }
 
 // settleAlways: before opening a transaction (explicitly, or implicitly by a batch larger than
-// the write buffer).  A transaction opened while a frozen memdb is still being flushed records
-// a sequence number that later makes the journal unreadable / loses writes (defect D6 of
-// DESIGN.md 2.3, properties C04/C11): not an iterator matter, so the trigger is not generated.
+// the write buffer).  Formerly unconditional (a transaction opened while a frozen memdb was still
+// being flushed hit defect D6, fixed 2a22e13); now only settled programs wait, unsettled ones open
+// transactions over a pending flush.
 func (x *dbExec) settleAlways() {
-	if x.tr == nil {
+	if x.tr == nil && x.c.Settled {
 		leveldb.VerifWaitCompaction(x.db)
 	}
 }
@@ -797,6 +799,11 @@ func (x *dbExec) iterNew(o op) bool {
 		x.res.Count("db_range_none", 1)
 	case o.Start != nil && o.Limit != nil:
 		x.res.Count("db_range_both", 1)
+		if c := x.cmp.Compare(*o.Start, *o.Limit); c > 0 {
+			x.res.Count("db_range_inverted", 1)
+		} else if c == 0 {
+			x.res.Count("db_range_start_eq_limit", 1)
+		}
 	case o.Start != nil:
 		x.res.Count("db_range_start_only", 1)
 	default:
